@@ -172,4 +172,14 @@ example :
        ("b", .dict []), ("c", .atom (.other "4")), ("a.x", .atom (.other "5"))] := by
   simp [merge, mergeVal, alookup, ainsert]
 
+/-- Deep merging is **not associative**: a value that is no mapping between two mappings wipes out what the first one
+held (which is why configuration files are merged strictly left to right, see `C16_files_left_to_right`). Here
+`{k: {p: 1}}`, `{k: null}`, `{k: {s: 3}}`: in order the result is `{k: {s: 3}}`, grouped from the right `p` comes back. -/
+theorem C17_not_associative :
+    ∃ a b c : Dict, merge (merge a b) c = [("k", .dict [("s", .atom (.other "3"))])] ∧
+      merge a (merge b c) = [("k", .dict [("p", .atom (.other "1")), ("s", .atom (.other "3"))])] := by
+  refine ⟨[("k", .dict [("p", .atom (.other "1"))])], [("k", .atom .none)], [("k", .dict [("s", .atom (.other "3"))])], ?_, ?_⟩
+  · simp [merge, mergeVal, alookup, ainsert]
+  · simp [merge, mergeVal, alookup, ainsert]
+
 end Asphalt
